@@ -2,6 +2,7 @@ package simrt
 
 import (
 	"reflect"
+	"unsafe"
 )
 
 // ---- channel operations ----
@@ -14,6 +15,7 @@ import (
 type rvSend struct {
 	val   interface{} // *T
 	taken bool
+	sync  [2]int32 // race edges: [0] sender -> receiver, [1] receiver -> sender
 }
 
 type rvq struct {
@@ -57,11 +59,13 @@ func Send[T any](ch chan<- T, v T) {
 		}
 		q := s.q(ch)
 		req := &rvSend{val: &v}
+		raceRelease(unsafe.Pointer(&req.sync[0]))
 		q.senders = append(q.senders, req)
 		s.block(func() bool { return req.taken || s.isClosed(ch) }, "send-unbuffered")
 		if !req.taken {
 			panic("send on closed channel")
 		}
+		raceAcquire(unsafe.Pointer(&req.sync[1]))
 		return
 	}
 	for {
@@ -91,6 +95,8 @@ func tryRecv[T any](s *Sim, ch <-chan T) (v T, ok bool, got bool) {
 			req := q.senders[0]
 			q.senders = q.senders[1:]
 			req.taken = true
+			raceAcquire(unsafe.Pointer(&req.sync[0]))
+			raceRelease(unsafe.Pointer(&req.sync[1]))
 			return *(req.val.(*T)), true, true
 		}
 	}
